@@ -211,9 +211,10 @@ func (REM) Generate(seed uint64, tier string) *core.Scenario {
 // ---- the in-process remote server -------------------------------------------------------------------
 
 type hubCache struct {
-	mu  sync.Mutex
-	dir string
-	dbs map[string]remotesrv.RemoteSrvStore
+	mu      sync.Mutex
+	dir     string
+	journal bool // serve journaling stores (what a sql-server's own databases are)
+	dbs     map[string]remotesrv.RemoteSrvStore
 }
 
 func (c *hubCache) Get(ctx context.Context, repopath, nbfVerStr string) (remotesrv.RemoteSrvStore, error) {
@@ -227,7 +228,13 @@ func (c *hubCache) Get(ctx context.Context, repopath, nbfVerStr string) (remotes
 	if err := os.MkdirAll(p, 0o755); err != nil {
 		return nil, err
 	}
-	cs, err := nbs.NewLocalStore(ctx, nbfVerStr, p, 1<<20, nbs.NewUnlimitedMemQuotaProvider(), false)
+	var cs *nbs.NomsBlockStore
+	var err error
+	if c.journal {
+		cs, err = nbs.NewLocalJournalingStore(ctx, nbfVerStr, p, nbs.NewUnlimitedMemQuotaProvider(), false, nil)
+	} else {
+		cs, err = nbs.NewLocalStore(ctx, nbfVerStr, p, 1<<20, nbs.NewUnlimitedMemQuotaProvider(), false)
+	}
 	if err != nil {
 		return nil, err
 	}
@@ -313,6 +320,9 @@ func (f hubFactory) CreateDB(ctx context.Context, nbf *types.NomsBinFormat, u *u
 		return nil, nil, nil, fmt.Errorf("could not access dolt url '%s': %w", u.String(), err)
 	}
 	cs = cs.WithHTTPFetcher(&simnet.Fetcher{Net: f.h.net, Handler: f.h.fh})
+	if _, ok := params[dbfactory.NoCachingParameter]; ok {
+		cs = cs.WithNoopChunkCache()
+	}
 	vrw := types.NewValueStore(cs)
 	ns := tree.NewNodeStore(cs)
 	return datas.NewTypesDatabase(vrw, ns), vrw, ns, nil
@@ -624,6 +634,8 @@ func (x *remRun) openStoreDir(dir string, journal bool) (*doltdb.DoltDB, error) 
 	params := map[string]interface{}{dbfactory.DisableSingletonCacheParam: "true"}
 	if journal {
 		params[dbfactory.ChunkJournalParam] = struct{}{}
+		// the owner may hold the lock: open read-only at once instead of waiting for the time-out
+		params[dbfactory.SkipJournalLockTimeoutParam] = struct{}{}
 	}
 	return doltdb.LoadDoltDBWithParams(x.ctx, types.Format_DOLT, "file://"+filepath.ToSlash(dir), filesys.LocalFS, params)
 }
